@@ -365,6 +365,88 @@ Proof.
   exists s1, s2. auto.
 Qed.
 
+(** ---- progress: no call blocks forever (as far as the lock itself is concerned) ---- *)
+Section Progress.
+Local Arguments N.eqb : simpl nomatch.
+Local Arguments N.modulo : simpl nomatch.
+Local Arguments N.div : simpl nomatch.
+Local Arguments N.add : simpl nomatch.
+Local Arguments N.sub : simpl nomatch.
+
+(** a task anywhere inside Acquire that does not own the lock gets it within 30 of its own
+    instructions once the lock word is 0 (its plain reads returning the true value) *)
+Lemma spin_progress y pc r :
+  linv y (InAcq pc r) -> got (InAcq pc r) = false ->
+  solo_thread expected_cfg y 30 (InAcq pc r) 0 = (Holding None, 1).
+Proof.
+  intros (Hpc & Hax & Hbx & Hy & Hz & Hy16) Hg.
+  destruct r as [a b c z]. cbn [ax bx cx zf] in *.
+  destruct (b =? 0) eqn:Eb; destruct (w32 (c + two32 - 1) =? 0) eqn:Ec.
+  all: destruct (pc_cases pc Hpc) as [->|[->|[->|[->|[->|[->|[->|[->|[->|[->|[->|[->|[->|[->|[->|[->|[->|[->|[->| ->]]]]]]]]]]]]]]]]]]];
+    try (assert (Ha: a = PState) by (apply Hax; cbn; tauto); subst a);
+    try (assert (Ha: a = if y then PYieldFn else PNull) by (apply Hy; tauto); subst a);
+    try (specialize (Hbx eq_refl); subst b);
+    try (specialize (Hz eq_refl); subst z);
+    try (specialize (Hy16 eq_refl); subst y);
+    clear Hax Hy;
+    cbn [got bx zf] in Hg; try discriminate; try congruence.
+  all: try destruct y; try destruct z; try discriminate.
+  all: cbn; rewrite ?Eb, ?Ec; cbn; rewrite ?Eb, ?Ec; cbn; try reflexivity.
+Qed.
+
+(** a task that owns the lock but is still inside Acquire returns within 3 instructions *)
+Lemma got_progress y pc r :
+  linv y (InAcq pc r) -> got (InAcq pc r) = true ->
+  solo_thread expected_cfg y 3 (InAcq pc r) 1 = (Holding None, 1).
+Proof.
+  intros (Hpc & Hax & Hbx & Hy & Hz & Hy16) Hg.
+  destruct r as [a b c z]. cbn [ax bx cx zf] in *.
+  destruct (pc_cases pc Hpc) as [->|[->|[->|[->|[->|[->|[->|[->|[->|[->|[->|[->|[->|[->|[->|[->|[->|[->|[->| ->]]]]]]]]]]]]]]]]]]];
+    cbn [got bx zf] in Hg; try discriminate.
+  - cbn. rewrite Hg. reflexivity.
+  - subst z. reflexivity.
+  - reflexivity.
+Qed.
+End Progress.
+
+Lemma count_pos_exists ts : (1 <= count_got ts)%nat -> exists u t, nth_error ts u = Some t /\ got t = true.
+Proof.
+  unfold count_got. induction ts as [|a ts IH]; cbn; [lia|]. destruct (got a) eqn:E.
+  - intros _. exists 0%nat, a. auto.
+  - intros H. destruct (IH H) as (u & t & H1 & H2). exists (S u), t. auto.
+Qed.
+
+(** From every reachable state: if the lock word is 0, ANY task that is inside Acquire completes it on
+    its own within 31 steps; if it is 1, the task that owns the lock is either in its critical section
+    (where Release is enabled) or completes Acquire on its own within 4 steps. So some task can always
+    finish its current lock operation: the lock itself never deadlocks. *)
+Theorem lock_progress y s :
+  Inv y s ->
+  (lock s = 0 -> forall tid pc r, nth_error (threads s) tid = Some (InAcq pc r) ->
+     exists s', solo_acquire expected_cfg y 31 tid s = (s', true) /\ nth_error (threads s') tid = Some (Holding None)) /\
+  (lock s = 1 -> exists u t, nth_error (threads s) u = Some t /\ got t = true /\
+     match t with
+     | InAcq pc r => exists s', solo_acquire expected_cfg y 4 u s = (s', true) /\ nth_error (threads s') u = Some (Holding None)
+     | _ => is_holding t = true
+     end).
+Proof.
+  intros (Hlock & Hcnt & Hl & _). split.
+  - intros L0 tid pc r Ht.
+    pose proof (Forall_nth _ _ _ _ Hl Ht) as Hlt.
+    assert (Hg: got (InAcq pc r) = false).
+    { destruct (got (InAcq pc r)) eqn:E; auto. pose proof (got_in_count _ _ _ Ht E). lia. }
+    pose proof (solo_acquire_thread expected_cfg y 30 tid s _ Ht) as H.
+    rewrite L0, (spin_progress y pc r Hlt Hg) in H. destruct (H eq_refl) as (s' & R1 & _ & R3 & _).
+    exists s'. auto.
+  - intros L1. assert (Hc: (1 <= count_got (threads s))%nat) by lia.
+    destruct (count_pos_exists _ Hc) as (u & t & Ht & Hg). exists u, t. repeat split; auto.
+    destruct t as [|pc r|v|]; try (cbn in Hg; discriminate); auto.
+    pose proof (Forall_nth _ _ _ _ Hl Ht) as Hlt.
+    pose proof (solo_acquire_thread expected_cfg y 3 u s _ Ht) as H.
+    rewrite L1, (got_progress y pc r Hlt Hg) in H. destruct (H eq_refl) as (s' & R1 & _ & R3 & _).
+    exists s'. auto.
+Qed.
+
 (** ---- the same statements about the program regenerated from the current source tree ---- *)
 Definition Reachable (n : nat) (y : bool) (s : mstate) : Prop := exists ls, run gen_cfg y (init n) ls = Some s.
 
@@ -400,3 +482,13 @@ Proof. rewrite (proj1 gen_matches). apply acquire_after_release. Qed.
 (** owning the lock word and being in the critical section *)
 Lemma holding_is_owner t : is_holding t = true -> got t = true.
 Proof. destruct t; cbn; auto; discriminate. Qed.
+
+Lemma lock_progress_gen n y s : Reachable n y s ->
+  (lock s = 0 -> forall tid pc r, nth_error (threads s) tid = Some (InAcq pc r) ->
+     exists s', solo_acquire gen_cfg y 31 tid s = (s', true) /\ nth_error (threads s') tid = Some (Holding None)) /\
+  (lock s = 1 -> exists u t, nth_error (threads s) u = Some t /\ got t = true /\
+     match t with
+     | InAcq pc r => exists s', solo_acquire gen_cfg y 4 u s = (s', true) /\ nth_error (threads s') u = Some (Holding None)
+     | _ => is_holding t = true
+     end).
+Proof. intros R. pose proof (reachable_inv _ _ _ R). rewrite (proj1 gen_matches). apply lock_progress; assumption. Qed.
